@@ -7,6 +7,7 @@ import (
 	"sort"
 	"strings"
 	"unicode"
+	"unicode/utf8"
 
 	"golang.org/x/tools/go/ssa"
 )
@@ -816,6 +817,51 @@ func ruleLexClass(p *Prog, r *Report) {
 		}
 	}
 	commentAfterEveryToken(p, r, rule)
+	tokenPositions(p, r, rule)
+}
+
+// tokenPositions: the line and column a token carries (and every diagnostic
+// reports) are those of the place its text starts at, whatever the layout:
+// line breaks inside a size declaration, CRLF, tabs, comments, characters of
+// several bytes. The lexer's states are evaluated on texts with all of these
+// and every token's position is compared with the one counted from the text.
+func tokenPositions(p *Prog, r *Report, rule string) {
+	key := rule + ":token-positions"
+	texts := []string{
+		"S1F1 W H->E Name\n<L [\n2\n]\n  <A \"x\"> // c\r\n\t<U1 [ 1 ..\n 2 ] 1 0x1F>\n>\n.\nS2F3 .",
+		"// head\r\nS6F11 名前\r\n<L[2]\r\n  <A \"é ü\"> <BOOLEAN T>  // é\r\n  <U4 v ...[1]>\r\n>\r\n.",
+		"S1F1 <L [1\n..\n\n2\n] <I1 [\r\n3] 1 2 3>>.",
+	}
+	var bad, undec []string
+	n := 0
+	for _, text := range texts {
+		toks, ok := lexAll(p, "lexMessageHeader", text, 400)
+		if !ok {
+			undec = append(undec, fmt.Sprintf("the text %q could not be lexed by evaluation", text))
+			continue
+		}
+		for _, t := range toks {
+			if t.off < 0 || t.off > len(text) || t.line == 0 || t.col == 0 {
+				undec = append(undec, fmt.Sprintf("position of the token %q not determined", t.val))
+				continue
+			}
+			before := text[:t.off]
+			wantLine := int64(1 + strings.Count(before, "\n"))
+			wantCol := int64(1 + utf8.RuneCountInString(before[strings.LastIndex(before, "\n")+1:]))
+			n++
+			if t.line != wantLine || t.col != wantCol {
+				bad = append(bad, fmt.Sprintf("the token %q at byte %d of %q is reported at Ln %d, Col %d; it stands at Ln %d, Col %d", t.val, t.off, text, t.line, t.col, wantLine, wantCol))
+			}
+		}
+	}
+	switch {
+	case len(bad) > 0:
+		r.bad(rule, key, "", strings.Join(firstN(bad, 2), "; "))
+	case len(undec) > 0:
+		r.unk(rule, key, "", strings.Join(firstN(undec, 2), "; "))
+	default:
+		r.ok(rule, key, "", fmt.Sprintf("evaluated on %d texts with line breaks inside size declarations, CRLF, tabs, comments and multi-byte characters: each of the %d tokens carries the line and column its text starts at", len(texts), n))
+	}
 }
 
 // commentAfterEveryToken: a line comment may follow any token, with or
